@@ -1,9 +1,11 @@
 /-
-  Line handler for C05: `c05 CFG NODE V TABLE FAULT` (FAULT = `-` or a path `N seg…`: the planted location)
+  Line handler for C05: `c05 CFG NODE V TABLE FAULT` (FAULT = `-` or `K (N seg…)×K`: the K planted locations)
     → "<model>\t<spec>"
-  model = ok | err <path set> r=<0|1> p=<0|1>   (paths of the issues the model of the code reports;
+  model = ok | err <path set> r=<0|1> p=<0|1> c=<0|1>   (paths of the issues the model of the code reports;
           r: every path resolves in the input or reaches the parent of a missing key;
-          p: every path is the planted location, a prefix of it, or inside the planted value (1 when nothing was planted))
+          p: every path is a planted location, a prefix of one, or inside a planted value (1 when nothing was planted);
+          c: every planted location has a reported path at it, above it or inside it)
+  The model runs over what the container sees of its members (`c.env`), the ideal paths over their own answers (`c.own`).
   spec  = ok | err <ideal path set>             (complete paths of the offending locations)
 -/
 import Gozod.Model.Containers
@@ -20,10 +22,10 @@ def isPrefix : List Seg → List Seg → Bool
   | _ :: _, [] => true
   | a :: as, b :: bs => a == b && isPrefix as bs
 
-def fault : List String → Option (Option (List Seg))
+def fault : List String → Option (Option (List (List Seg)))
   | ["-"] => some none
-  | ts => match counted seg ts with
-    | some (p, []) => some (some p)
+  | ts => match counted (counted seg) ts with
+    | some (ps, []) => some (some ps)
     | _ => none
 
 def handle (ts : List String) : String :=
@@ -34,7 +36,7 @@ def handle (ts : List String) : String :=
     | none => "bad-op"
     | some f =>
       let r := run c.cfg c.env c.node c.input
-      let s := Spec.accepts c.env c.node c.input
+      let s := Spec.accepts c.own c.written c.input
       let m := match r with
         | .ok => "ok"
         | .err is =>
@@ -42,9 +44,12 @@ def handle (ts : List String) : String :=
           let res := ps.all (resolvesOrParent c.input)
           let pre := match f with
             | none => true
-            | some loc => ps.all (fun p => isPrefix p loc)
-          s!"err {pathSet ps} r={b01 res} p={b01 pre}"
-      let sp := if s then "ok" else s!"err {pathSet (Spec.paths c.env c.node c.input)}"
+            | some locs => ps.all (fun p => locs.any (isPrefix p))
+          let cov := match f with
+            | none => true
+            | some locs => locs.all (fun l => ps.any (fun p => isPrefix p l))
+          s!"err {pathSet ps} r={b01 res} p={b01 pre} c={b01 cov}"
+      let sp := if s then "ok" else s!"err {pathSet (Spec.paths c.own c.written c.input)}"
       s!"{m}\t{sp}"
 
 end Gozod.Drv.C05
